@@ -44,3 +44,70 @@ Proof.
 Qed.
 Print Assumptions block_covers_kernel_window.
 Print Assumptions loaded_8bit_mono_sample_covers_every_kernel.
+
+(* ---------------------------------------------------------------- every sample layout --------------------------------------------------------
+   The same for all four layouts.  The kernel's sample memory is the block seen as elements - bytes for 8-bit samples, 16-bit
+   words for 16-bit samples - with the origin after the 4 guard bytes (4 elements, or 2 words); a frame is chn elements. *)
+Lemma reach_bounds c : - chn_of c <= reach_lo c /\ reach_hi c <= 3 * chn_of c - 1 /\ 1 <= chn_of c <= 2.
+Proof. unfold reach_lo, reach_hi, chn_of. destruct (k_sin c), (k_interp c); lia. Qed.
+
+Theorem elements_cover_kernel_window : forall E base len c a count ramp st buf,
+  zlen E = base + (len + 4) * chn_of c -> chn_of c <= base -> 0 <= len ->
+  0 <= s_frac st < 65536 ->
+  (forall k, 0 <= k < count -> 0 <= pos_at c a st k <= (len + 1) * chn_of c) ->
+  (Z.to_nat (Z.max 0 count) * (if k_sout c then 2 else 1) <= length buf)%nat ->
+  kernel c {| m_data := E; m_base := base |} a count ramp st buf <> None.
+Proof.
+  intros E base len c a count ramp st buf HL HB Hlen Hf Hp Hb.
+  destruct (reach_bounds c) as [R1 [R2 R3]].
+  apply (kernel_reads_in_window c {| m_data := E; m_base := base |} a count ramp st buf (- base) ((len + 4) * chn_of c - 1)); try assumption.
+  - intros i Hi. unfold rd. cbn [m_data m_base].
+    destruct (zget_some E (i + base)) as [x Hx]; [lia|]. rewrite Hx. discriminate.
+  - intros k Hk. specialize (Hp k Hk). nia.
+Qed.
+
+Lemma words_of_zlen : forall n l, length l = (2 * n)%nat -> length (words_of l) = n.
+Proof.
+  induction n as [|n IH]; intros l H.
+  - destruct l; [reflexivity|discriminate].
+  - destruct l as [|x [|y t]]; try (cbn in H; lia). cbn [words_of length]. f_equal. apply IH. cbn in H. lia.
+Qed.
+
+(* from the loader's post-condition: 8-bit samples, mono or stereo (elements are the bytes of the block) *)
+Theorem loaded_8bit_sample_covers_every_kernel : forall skip flags s file pos nbuf s' blk pos' c a count ramp st buf,
+  load_sample skip flags s file pos nbuf = Loaded s' blk pos' ->
+  framelen_of (s_flg s) = chn_of c ->                      (* 8-bit: a frame is chn bytes *)
+  0 <= s_frac st < 65536 ->
+  (forall k, 0 <= k < count -> 0 <= pos_at c a st k <= (s_len s' + 1) * chn_of c) ->
+  (Z.to_nat (Z.max 0 count) * (if k_sout c then 2 else 1) <= length buf)%nat ->
+  kernel c {| m_data := blk; m_base := 4 |} a count ramp st buf <> None.
+Proof.
+  intros skip flags s file pos nbuf s' blk pos' c a count ramp st buf HL HF Hf Hp Hb.
+  pose proof (load_sample_loaded skip flags s file pos nbuf s' blk pos' HL) as LF.
+  destruct LF as [_ _ [L0 _] _ _ _ _ [pre [body [g [EB [LP [LB [LG _]]]]]]]].
+  rewrite HF in LB, LG. destruct (reach_bounds c) as [_ [_ R3]].
+  eapply elements_cover_kernel_window; eauto; try lia.
+  rewrite EB. unfold zlen in *. rewrite !app_length. lia.
+Qed.
+
+(* 16-bit samples, mono or stereo (elements are the 16-bit words of the block, the 4 guard bytes are 2 words) *)
+Theorem loaded_16bit_sample_covers_every_kernel : forall skip flags s file pos nbuf s' blk pos' c a count ramp st buf,
+  load_sample skip flags s file pos nbuf = Loaded s' blk pos' ->
+  framelen_of (s_flg s) = 2 * chn_of c ->                  (* 16-bit: a frame is chn words *)
+  0 <= s_frac st < 65536 ->
+  (forall k, 0 <= k < count -> 0 <= pos_at c a st k <= (s_len s' + 1) * chn_of c) ->
+  (Z.to_nat (Z.max 0 count) * (if k_sout c then 2 else 1) <= length buf)%nat ->
+  kernel c {| m_data := words_of blk; m_base := 2 |} a count ramp st buf <> None.
+Proof.
+  intros skip flags s file pos nbuf s' blk pos' c a count ramp st buf HL HF Hf Hp Hb.
+  pose proof (load_sample_loaded skip flags s file pos nbuf s' blk pos' HL) as LF.
+  destruct LF as [_ _ [L0 _] _ _ _ _ [pre [body [g [EB [LP [LB [LG _]]]]]]]].
+  rewrite HF in LB, LG. destruct (reach_bounds c) as [_ [_ R3]].
+  eapply elements_cover_kernel_window; eauto; try lia.
+  unfold zlen in *.
+  rewrite (words_of_zlen (Z.to_nat (2 + (s_len s' + 4) * chn_of c)) blk); [lia|].
+  rewrite EB, !app_length. lia.
+Qed.
+Print Assumptions elements_cover_kernel_window.
+Print Assumptions loaded_8bit_sample_covers_every_kernel.
+Print Assumptions loaded_16bit_sample_covers_every_kernel.
